@@ -81,6 +81,18 @@ theorem C12_assign_in_tx_counterexample :
     closure swallows an error, no closure assigns receiver state. -/
 theorem C12_sites_ok : ∀ s ∈ sites, s.updates ≤ 1 ∧ s.swallows = false ∧ s.assignsInTx = false := by decide
 
+/-- **One write transaction per operation, helpers included** (regenerated from /repo
+    on every run): following the calls into the package's own functions and methods, no
+    wallet method reaches more than one `db.Update` call site, and none inside a loop. -/
+theorem C12_single_transaction_reach : ∀ x ∈ Facts.walletTxReach, x.2 ≤ 1 := by decide
+
+/-- why the premise matters: an operation split over two transactions is not atomic —
+    a failed commit of the second leaves the first one's writes in the store -/
+theorem C12_two_transactions_counterexample :
+    let r1 := update (0 : Nat) [fun n => n + 1] true .none
+    let r2 := update r1.1 [fun n => n + 2] true .failCommit
+    r2.2 = .error ∧ r2.1 ≠ 0 ∧ r2.1 ≠ 3 := by decide
+
 /-- the mutating methods are exactly the ones with a transaction -/
 theorem C12_sites_mutating :
     (sites.filter (fun s => s.updates = 1)).map (·.name) =
